@@ -355,6 +355,16 @@ class Ref:
             else:
                 outs.append((pf, 'normal', None))
             return outs
+        if k == 'ternstmt':
+            # `c ? A : B;` with void arms: exactly one arm is executed (docs: conditional expression); no new scope
+            if L.typeof(s[1], env, sc) != 'bool':
+                raise L.IllTyped('condition must be bool')
+            c, _ = self.ev(s[1], p, sc)
+            pt, pf = p.fork(c), p.fork(z3.Not(c))
+            outs = self.run([s[2]], [(pt, 'normal', None)], sc) + self.run([s[3]], [(pf, 'normal', None)], sc)
+            for (q, _, _) in outs:
+                q.cv = None
+            return outs
         if k == 'switch':
             dv, dt = self.ev(s[1], p, sc)
             cases = s[2]
